@@ -12,7 +12,7 @@
 (d) determinism: no function reachable from syntax_to_semantic iterates a hash map or reads a clock / randomness /
     environment (scan of the MIR call graph); the engine's map model refuses iteration.
 """
-import json, os, collections, re, itertools
+import hashlib, json, os, collections, re, itertools
 import z3
 from . import explore, semh
 from .interp import SV, SB, Panic, Unsupported, Violation
@@ -299,6 +299,57 @@ def determinism_scan(kit):
     return len(seen), hits
 
 
+def lexical_arm(ctx, res):
+    """The relational runs above start from token tables (kind IDENT for every user name, trivia kinds for layout).  The lexical half of
+    the same invariances is decided here with the real lexer (LexedStr::new from MIR): every spelling of the identifier lexeme of the
+    reference grammar (symbolic code points, <= 3 characters, not a keyword) is exactly one IDENT token with no diagnostic - so the token
+    table does not depend on which names a program uses - and an identifier next to another identifier / a literal / punctuation with
+    every permitted separator keeps its token.  Same harness and native confirmation as C15."""
+    from . import h_c15
+    L = h_c15.lexeme_spec()
+    classes = L.lexeme_classes()
+    tasks = [("single", "identifier", i) for i in range(len(classes["identifier"][1]))]
+    for b in (h_c15.NEIGHBOURS_QUICK if ctx.quick() else list(classes)):
+        for sep in h_c15.separators(L, "identifier", b):
+            for ia in range(len(classes["identifier"][1])):
+                tasks.append(("pair", "identifier", ia, b, 0, sep))
+    fails = {}
+
+    def on_result(idx, task, recs, left, stats, err):
+        if err:
+            res.inconclusive.append(err[:400])
+        if left:
+            res.inconclusive.append(f"{task} not exhausted")
+        for r in recs:
+            if r[0] in ("ok", "sample"):
+                res.obligations += r[1]
+            else:
+                d = fails.setdefault(r[2], {"count": 0, "examples": [], "outcome": r[1]})
+                d["count"] += 1
+                if len(d["examples"]) < 3:
+                    d["examples"].append((r[3], r[4]))
+    st, errs = explore.explore_many(h_c15.famfactory(ctx.seed), tasks, workers=ctx.workers, on_result=on_result, log=ctx.log)
+    res.merge_stats(st)
+    ctx.log(f"lexical arm: {st.get('paths', 0)} paths over {len(tasks)} identifier arrangements: ok={st.get('ok', 0)} violation={st.get('violation', 0)} panic={st.get('panic', 0)} unsupported={st.get('unsupported', 0)}")
+    kit = h_c15.LexerKit(("oq3_lexer", "oq3_parser"))
+    for site, info in sorted(fails.items()):
+        if info["outcome"] == "unsupported":
+            res.inconclusive.append(f"unsupported ({info['count']} paths): {site}")
+            continue
+        text, task = info["examples"][0]
+        if not h_c15.confirm_concrete(kit, task, text):
+            res.inconclusive.append(f"lexical counterexample does not reproduce natively: {site} e.g. {text!r}")
+            continue
+        res.validated += 1
+        what = {"site": "lexical|" + site, "paths": info["count"], "text": text, "arrangement": task,
+                "meaning": "a program that uses this identifier spelling gets another token table than the same program with another name"}
+        rp = os.path.join(ctx.replay_dir, "lex_" + hashlib.sha1(site.encode()).hexdigest()[:10] + ".json")
+        json.dump({"property": "C17", "kind": "lexical", "text": text, "task": task, "what": what}, open(rp, "w"), indent=1)
+        res.violations.append({"what": json.dumps(what, ensure_ascii=False), "replay": rp})
+    res.functions_encoded += ["oq3_parser::LexedStr::new + oq3_lexer (identifier spellings, lexical arm)"]
+    res.bounds["lexical_arm"] = f"{len(tasks)} arrangements: identifier lexeme <= 3 symbolic code points alone and next to {'representative' if ctx.quick() else 'all'} lexeme classes with every permitted separator"
+
+
 def run(ctx):
     res = Result()
     tasks = []
@@ -318,6 +369,7 @@ def run(ctx):
     res.merge_stats(st)
     ctx.log(f"{st.get('paths', 0)} paths: {dict(counts)} panic={st.get('panic', 0)} violation={st.get('violation', 0)} unsupported={st.get('unsupported', 0)} wall={st.get('wall', 0):.1f}s")
     semh.triage(ctx, res, "C17", fails, panic_is="violation")      # base programs never panic: a panic is a variant-only panic, confirmed by the native run of the variant text
+    lexical_arm(ctx, res)
     # (d)
     from .sem_kit import SemKit
     kit = SemKit()
@@ -341,4 +393,8 @@ def run(ctx):
 
 
 def replay(ctx, path):
+    d = json.load(open(path))
+    if d.get("kind") == "lexical":
+        from . import h_c15
+        return h_c15.replay(ctx, path)
     return semh.replay(ctx, path)
